@@ -1152,3 +1152,29 @@ Example C06_fc_instance_well_scoped :
   C06SimFcDefs.in_fc fc_example = true /\ well_scoped fc_example = true /\
   C06SimFcDefs.in_fc fc_example_ok = true /\ well_scoped fc_example_ok = true.
 Proof. vm_compute. repeat split; reflexivity. Qed.
+
+(* corners of the fragment: a closure f created BEFORE main declares the local w reads w as a GLOBAL (the local w is
+   invisible to it, in RefSem, in the meaning - `restrict` - and in the code - ReadGlobalVar); a closure that captures
+   two locals in the order b, a (upvalue 0 = slot 1, upvalue 1 = slot 0) and only writes a; a local that no closure
+   captures (Pop, not CloseUpvalue, at the end of main); a captured variable assigned by main between two calls *)
+Definition fc_example_edges : module :=
+  prog [("main", fn []
+    [CSetVar (s "a") (CScalarInt 1);
+     CSetVar (s "b") (CScalarInt 2);
+     CSetGlobalVar (s "w") (CScalarInt 40);
+     CSetVar (s "f") (CClosure [] [CSetGlobalVar (s "gw") (CBin BAdd (CReadVar (s "w")) (CReadVar (s "b")));
+                                   CSetVar (s "a") (CBin BSub (CReadVar (s "b")) (CScalarInt 10))]);
+     CSetVar (s "w") (CScalarInt 7);
+     CSetVar (s "u") (CBin BAdd (CReadVar (s "w")) (CReadVar (s "a")));
+     CSetVar (s "h") (CClosure [] [CSetGlobalVar (s "hw") (CBin BMul (CReadVar (s "w")) (CReadVar (s "a")))]);
+     CSetGlobalVar (s "r") (fc_call0 "f");
+     CSetGlobalVar (s "r") (fc_call0 "h");
+     CSetVar (s "b") (CScalarInt 100);
+     CSetGlobalVar (s "r") (fc_call0 "f");
+     CSetGlobalVar (s "r") (fc_call0 "h");
+     CSetGlobalVar (s "a_end") (CReadVar (s "a"));
+     CSetGlobalVar (s "u_end") (CReadVar (s "u"))])].
+Example C06_fc_instance_edges :
+  fc_agrees fc_example_edges 600 ["w"; "gw"; "hw"; "r"; "a_end"; "u_end"; "a"; "f"]
+    (KOk, [(s "w", TrInt 40); (s "gw", TrInt 140); (s "r", TrNil); (s "hw", TrInt 630); (s "a_end", TrInt 90); (s "u_end", TrInt 8)]).
+Proof. vm_compute. repeat split; repeat constructor. Qed.
